@@ -43,6 +43,11 @@ class Work:
         self.prop, self.tier, self.seed = prop, tier, seed
         self.dir = os.path.join(RUNROOT, "%s-%s-%d" % (prop, tier, os.getpid()))
         shutil.rmtree(self.dir, ignore_errors=True)
+        # scratch directories of runs that were killed (their process is gone) are removed: disk is limited
+        for old in glob.glob(os.path.join(RUNROOT, "C??-*-*")):
+            pid = old.rsplit("-", 1)[-1]
+            if pid.isdigit() and not os.path.exists("/proc/" + pid):
+                shutil.rmtree(old, ignore_errors=True)
         os.makedirs(self.dir)
         self.keep = keep
         self.t0 = time.time()
